@@ -35,6 +35,23 @@ def install(w):
         "(upper(key_of(expression)) + ' ' + upper(node_name(arg(expression, 'kind'))) if isinstance(arg(expression, 'kind'), exp.Var) else "
         "(upper(arg(expression, 'this')) if isinstance(expression, exp.Command) and isinstance(arg(expression, 'this'), str) else upper(key_of(expression)))))"
     )
+    def _keycmd(ex, st, args):
+        from pyvc.spec import eval_nested
+
+        return eval_nested(ex, st, KC, {"expression": args[0], "exp": w.const(exp)})
+
+    w.specfuns["keycmd"] = SpecFun("keycmd", _keycmd)
+
+    def _is_dml_count(ex, st, args):
+        """statement whose rowcount is DuckDB's affected-row count: INSERT/UPDATE/DELETE without session-changing args"""
+        from pyvc.spec import eval_nested
+
+        src = ("not (arg(expression, 'set_database') or arg(expression, 'set_schema') or arg(expression, 'create_db_name')) "
+               "and keycmd(expression) in ('INSERT', 'UPDATE', 'DELETE')")
+        return eval_nested(ex, st, src, {"expression": args[0], "exp": w.const(exp)})
+
+    w.specfuns["is_dml_count"] = SpecFun("is_dml_count", _is_dml_count)
+
     w.add_contract(
         Contract(
             "fakesnow.expr.key_command",
@@ -44,7 +61,7 @@ def install(w):
             modifies=[],
             pure=True,
             ensures={
-                "C04.key_command.def": f"result == {KC}",
+                "C04.key_command.def": "result == keycmd(expression)",
                 # the classification the DML / DDL branches of _execute rely on (spec table of the property)
                 "C04.key_command.dml": "implies(arg(expression, 'kind') is None, "
                 "(implies(cls_is(expression, exp.Insert), result == 'INSERT') and implies(cls_is(expression, exp.Update), result == 'UPDATE') "
